@@ -74,20 +74,22 @@ var readPrims = map[string]string{
 }
 
 type pathState struct {
-	version int
-	alias   map[string]string // local name -> source text it stands for (len(x) copies, inlined parameters)
-	assume  map[string]bool
-	store   map[string]int64 // local bool (0/1) and flag variables
-	known   map[string]bool  // which store entries are known
-	trace   []TraceItem
-	done    string // "", "return", "panic"
-	depth   int
-	rets    []retVal             // values returned by the most recently inlined callee (constant-propagated where known)
-	sel     map[string]*selSet   // subject expression -> the constants it can still equal on this path (value dispatch)
-	retStmt *ast.ReturnStmt      // the return statement of the interpreted function that ended this path
-	aliasE  map[string]aliasExpr // boolean locals that name a condition: the condition itself (valid while alias[name] == text)
-	loopSel map[string]*selSet   // dispatch decisions taken inside a loop body (reported, never used to prune)
-	fieldE  map[string]ast.Expr  // "x.f" -> the boolean condition stored in that field by a composite literal / assignment
+	version  int
+	alias    map[string]string // local name -> source text it stands for (len(x) copies, inlined parameters)
+	assume   map[string]bool
+	store    map[string]int64 // local bool (0/1) and flag variables
+	known    map[string]bool  // which store entries are known
+	trace    []TraceItem
+	done     string // "", "return", "panic"
+	depth    int
+	rets     []retVal             // values returned by the most recently inlined callee (constant-propagated where known)
+	sel      map[string]*selSet   // subject expression -> the constants it can still equal on this path (value dispatch)
+	retStmt  *ast.ReturnStmt      // the return statement of the interpreted function that ended this path
+	retName  string               // the variable the most recently inlined callee returned as its first result
+	retExprs []ast.Expr           // the result expressions of the most recently inlined callee's return
+	aliasE   map[string]aliasExpr // boolean locals that name a condition: the condition itself (valid while alias[name] == text)
+	loopSel  map[string]*selSet   // dispatch decisions taken inside a loop body (reported, never used to prune)
+	fieldE   map[string]ast.Expr  // "x.f" -> the boolean condition stored in that field by a composite literal / assignment
 }
 
 type aliasExpr struct {
@@ -223,6 +225,8 @@ func (s *pathState) clone() *pathState {
 		}
 	}
 	n.retStmt = s.retStmt
+	n.retName = s.retName
+	n.retExprs = s.retExprs
 	if len(s.loopSel) > 0 {
 		n.loopSel = map[string]*selSet{}
 		for k, v := range s.loopSel {
@@ -767,6 +771,28 @@ func (tr *tracer) execStmt(fi *FuncInfo, s ast.Stmt, st *pathState) []*pathState
 					}
 					break
 				}
+				// a helper that returns the variable a primitive's result was bound to
+				if s2.retName != "" {
+					depth := 0
+					for i := len(s2.trace) - 1; i >= 0; i-- {
+						it := &s2.trace[i]
+						if it.Prim == "leave" {
+							depth++
+							continue
+						}
+						if it.Prim == "enter" {
+							depth--
+							if depth <= 0 {
+								break
+							}
+							continue
+						}
+						if depth == 1 && it.Call != nil && it.Dst == s2.retName {
+							it.Dst = exprStr(x.Lhs[0])
+							break
+						}
+					}
+				}
 			}
 			if fromCallee {
 				// values taken from the callee's returns
@@ -838,6 +864,13 @@ func (tr *tracer) execStmt(fi *FuncInfo, s ast.Stmt, st *pathState) []*pathState
 		for _, s2 := range states {
 			if s2.done == "" && s2.depth > 0 {
 				s2.rets = nil
+				s2.retName = ""
+				s2.retExprs = x.Results
+				if len(x.Results) > 0 {
+					if rid, isId := ast.Unparen(x.Results[0]).(*ast.Ident); isId {
+						s2.retName = rid.Name
+					}
+				}
 				results := x.Results
 				if len(results) == 0 {
 					// bare return: the named results
@@ -916,6 +949,14 @@ func (tr *tracer) execStmt(fi *FuncInfo, s ast.Stmt, st *pathState) []*pathState
 				}
 			}
 			loopArg = "range " + xs + " key " + key
+		}
+		if f, ok := x.(*ast.ForStmt); ok {
+			// `for k := 0; k < len(X); k++` with k not written in the body walks X like `for k := range X`
+			if k, xs, ok := indexLoopOver(info, f); ok {
+				delete(inner.alias, k)
+				delete(inner.known, k)
+				loopArg = "range " + st.resolve(normAtom(xs)) + " key " + k
+			}
 		}
 		var out []*pathState
 		for _, b := range tr.execList(fi, body.List, []*pathState{inner}) {
@@ -1762,4 +1803,36 @@ func (tr *tracer) recordFieldConds(info *types.Info, lhs, rhs ast.Expr, st *path
 			set(base, rhs)
 		}
 	}
+}
+
+// indexLoopOver recognises `for k := 0; k < len(X); k++ { ... }` whose body never writes k: the index variable and X.
+func indexLoopOver(info *types.Info, f *ast.ForStmt) (string, ast.Expr, bool) {
+	init, ok := f.Init.(*ast.AssignStmt)
+	if !ok || init.Tok != token.DEFINE || len(init.Lhs) != 1 || len(init.Rhs) != 1 {
+		return "", nil, false
+	}
+	kid, ok := init.Lhs[0].(*ast.Ident)
+	if !ok {
+		return "", nil, false
+	}
+	if z, isC := constInt(info, init.Rhs[0]); !isC || z != 0 {
+		return "", nil, false
+	}
+	obj := info.Defs[kid]
+	cond, ok := ast.Unparen(f.Cond).(*ast.BinaryExpr)
+	if !ok || cond.Op != token.LSS || !isIdentOf(info, cond.X, obj) {
+		return "", nil, false
+	}
+	lc, ok := ast.Unparen(cond.Y).(*ast.CallExpr)
+	if !ok || exprStr(lc.Fun) != "len" || len(lc.Args) != 1 {
+		return "", nil, false
+	}
+	post, ok := f.Post.(*ast.IncDecStmt)
+	if !ok || post.Tok != token.INC || !isIdentOf(info, post.X, obj) {
+		return "", nil, false
+	}
+	if !neverAssigned(info, f.Body, obj) {
+		return "", nil, false
+	}
+	return kid.Name, lc.Args[0], true
 }
